@@ -82,11 +82,12 @@ const (
 	BadSig                      // next chosen member signs other data
 	DupSameSig                  // the previous valid slot's signature bytes again
 	DupFreshSig                 // the previous valid slot's member signs again
+	Garbage                     // 64 random bytes
 	NKinds
 )
 
 func (k SlotKind) String() string {
-	return [...]string{"valid", "foreign", "bad-sig", "dup-same-sig", "dup-fresh-sig"}[k]
+	return [...]string{"valid", "foreign", "bad-sig", "dup-same-sig", "dup-fresh-sig", "garbage"}[k]
 }
 
 // Sigs produces one 64-byte signature per slot; who = member indices used by Valid/BadSig slots.
@@ -133,6 +134,10 @@ func (s *Set) Sigs(rng *rand.Rand, msg []byte, kinds []SlotKind, who []int) [][]
 				continue
 			}
 			out = append(out, sign(prevKey, msg))
+		case Garbage:
+			g := make([]byte, 64)
+			rng.Read(g)
+			out = append(out, g)
 		}
 	}
 	return out
